@@ -142,6 +142,21 @@ func runC13(r *Run) {
 	}
 
 	for _, fn := range m.Methods {
+		// nothing an agent method calls can panic: a panic between a removal and its event loses the event (and,
+		// under the lock, leaves the agent locked for good) - in whichever build configuration it is compiled in
+		eachInstr(fn, func(b *ssa.BasicBlock, i int, in ssa.Instruction) {
+			ci, ok := in.(ssa.CallInstruction)
+			if !ok {
+				return
+			}
+			sc := ci.Common().StaticCallee()
+			if sc == nil || !p.isLibFn(sc) || sc.Blocks == nil {
+				return
+			}
+			if site := mayPanicSite(p, sc, 0, map[*ssa.Function]bool{}); site != nil {
+				terminal.Violation(fn, instrPos(in), "call of "+fnName(sc)+", which can panic", "an agent method calls a function that can panic ("+p.pos(instrPos(site))+"): a transaction that was removed just before never receives its terminal event, and a panic under the mutex leaves every later call blocked")
+			}
+		})
 		accs := sharedAccesses(fn, fields)
 		if len(accs) == 0 {
 			continue
@@ -516,13 +531,13 @@ func runC13(r *Run) {
 				// the ID must be an element of S at the handler loop's induction variable
 				var hia *ssa.IndexAddr
 				eachInstr(fn, func(b *ssa.BasicBlock, i int, in ssa.Instruction) {
-					if x, ok := in.(*ssa.IndexAddr); ok && hl.Body[b] && x.X == S {
+					if x, ok := in.(*ssa.IndexAddr); ok && hl.Body[b] && (x.X == S || canonPhi(x.X) == canonPhi(S)) {
 						if strings.Contains(idKey, k.Key(x)) || idKey == "*"+k.Key(x) {
 							hia = x
 						}
 					}
 				})
-				if hia != nil && fullRangeLoop(hl, S, hia) && blockDominates(lp.Header, hl.Header) {
+				if hia != nil && (fullRangeLoop(hl, S, hia) || fullRangeLoop(hl, hia.X, hia)) && blockDominates(lp.Header, hl.Header) {
 					paired = true
 				}
 			}
@@ -701,6 +716,9 @@ func runC13(r *Run) {
 	sh.Done()
 
 	r.Borrow("C14", map[string]string{"C14.release": "C13.release"})
+	// lookup and removal happen in one exclusive critical section: what a method decided about the table is still
+	// true when it acts on it (shared with C14)
+	r.Borrow("C14", map[string]string{"C14.lockset": "C13.lockset", "C14.atomic": "C13.atomic"})
 }
 
 // rangeElemSource: v is (a conversion of) a load of &S[i]; returns the IndexAddr.
@@ -1011,4 +1029,28 @@ func passesOnEveryPath(p *Prog, fn *ssa.Function, k *keyer, must, at ssa.Instruc
 	}
 	q.Run()
 	return ok
+}
+
+// mayPanicSite: an explicit panic reachable in fn or the module functions it calls statically (depth <= 4).
+func mayPanicSite(p *Prog, fn *ssa.Function, depth int, seen map[*ssa.Function]bool) ssa.Instruction {
+	if fn == nil || fn.Blocks == nil || seen[fn] || depth > 4 || !p.isLibFn(fn) {
+		return nil
+	}
+	seen[fn] = true
+	var site ssa.Instruction
+	eachInstr(fn, func(b *ssa.BasicBlock, i int, in ssa.Instruction) {
+		if site != nil {
+			return
+		}
+		if pn, ok := in.(*ssa.Panic); ok {
+			site = pn
+			return
+		}
+		if ci, ok := in.(ssa.CallInstruction); ok {
+			if s2 := mayPanicSite(p, ci.Common().StaticCallee(), depth+1, seen); s2 != nil {
+				site = s2
+			}
+		}
+	})
+	return site
 }
